@@ -1,6 +1,7 @@
 package main
 
 import (
+	"strings"
 	"fmt"
 	"go/token"
 	"go/types"
@@ -941,7 +942,7 @@ func (p *Path) rangeInit(fr *Frame, x *ssa.Range) Value {
 			if len(it.order) >= 2 {
 				p.mapRanges++
 				p.noteChoicePoint("map-range", fr.fn)
-				if p.eng.mapOrderChoice || p.mapChoice {
+				if (p.eng.mapOrderChoice || p.mapChoice) && !p.isHarnessFunc(fr.fn) {
 					// pick a permutation: successive choices
 					rest := it.order
 					var perm []MapEntry
@@ -1228,4 +1229,16 @@ func (p *Path) callBuiltin(name string, args []Value, fr *Frame, cc *ssa.CallCom
 	}
 	p.unsup("builtin %s on %T", name, args[0])
 	return nil
+}
+
+
+// isHarnessFunc: functions defined in overlay (harness/shim) files are not code under test.
+func (p *Path) isHarnessFunc(fn *ssa.Function) bool {
+	for f := fn; f != nil; f = f.Parent() {
+		if f.Pos().IsValid() {
+			name := p.eng.prog.Fset.Position(f.Pos()).Filename
+			return strings.Contains(name, "zz_verif") || strings.Contains(name, "/zzverif/")
+		}
+	}
+	return false
 }
